@@ -202,7 +202,7 @@ class Ctx:
         print("VIOLATION property=%s replay=%s" % (self.prop, d), flush=True)
 
     # ------------------------------------------------------------- validation
-    def validate(self, module, cfg, trace_path, sigprefix="trace", timeout=900, max_reject=12, dfs=False):
+    def validate(self, module, cfg, trace_path, sigprefix="trace", timeout=900, max_reject=12, dfs=False, ignore_deviations=()):
         """Validates an NDJSON trace (scenarios separated by `reset` records) against a trace
         specification.  A rejected scenario is reported, cut out, and the rest is validated again."""
         if not os.path.exists(trace_path):
@@ -257,6 +257,13 @@ class Ctx:
                     self.violation(g, "%d vector(s) differ from the specification's reference semantics, e.g. %s" % (len(ats), " || ".join(ex)),
                                    {"examples": ex, "count": len(ats)})
                 self.extra["step_mismatches"] = self.extra.get("step_mismatches", 0) + len(mism)
+            # named deviations the trace specification accepts but reports (recorded findings)
+            for dev in sorted(set(re.findall(r'"DEVIATION", "(\w+)", \d+', out))):
+                n = len(re.findall(r'"DEVIATION", "%s", \d+' % dev, out))
+                self.counters["deviation_" + dev] = self.counters.get("deviation_" + dev, 0) + n
+                if dev in ignore_deviations:
+                    continue
+                self.violation("deviation:" + dev, "%d record(s) explained only by the named deviation %s of %s" % (n, dev, module), {"count": n})
             accepted = ("No error has been found" in out) and not rej
             self.log("TV  %-40s %6d records %s %5.1fs" % (cfg, len(lines), "accepted" if accepted else "REJECTED", time.time() - t))
             if accepted:
